@@ -7,10 +7,11 @@ LEVEL = "proof"
 RULE = ("real binaries remove_long_lines / remove_invalid_utf8 / remove_invalid_utf8_base64 / subtract_lines / commoncrawl_dedupe / "
         "simple_cleaning vs the Lean models on seeded line sequences (lengths at LIMIT-1, LIMIT, LIMIT+1; ill-formed UTF-8; C0 "
         "controls; duplicates; reference sets) and on every splitting A++B of short sequences for the stateless tools "
-        "(filter(A++B) = filter(A)++filter(B)); oracle = per-line predicate / subsequence / set-difference statements evaluated on "
+        "(filter(A++B) = filter(A)++filter(B)); bin/simple_cleaning against PV.Cleaning.filter on mixed-script / punctuation / run / control / ill-formed lines over all option "
+        "combinations of min-chars, character-run, the three thresholds, --scripts and -f; oracle = per-line predicate / subsequence / set-difference statements evaluated on "
         "the tool output; non-trivial = distinct (tool, args, input)")
-ASSUMPTIONS = ["simple_cleaning's ICU classification (script, punctuation, space) is a parameter of its model; only the "
-               "never-passes-ill-formed-or-C0 and stateless/subsequence parts are decided for it",
+ASSUMPTIONS = ["simple_cleaning's ICU classification (uscript_getScript, u_ispunct, u_isspace) is a parameter of its model, taken from the same "
+               "ICU build; its float threshold tests are modelled for exactly representable option values (0, 1, 1/2, 1/4, 3/4) only",
                "64-bit hash collisions excepted for the two set-based tools"]
 
 
@@ -167,6 +168,63 @@ def run(ctx):
                                                summary=f"{name}: filter(A++B) != filter(A)++filter(B) when splitting after line {k}")
                         break
         if len(ctx.violations) > 3:
+            break
+    cleaning_model(ctx)
+
+
+TOK = ["hello", "world", "Привет", "мир", "λόγος", "2024", "3.14", ",", ".", "!", "?", " ", " ", "  ", "\u00a0", "\u3000", "\u0301", "😀", "漢字",
+       "かな", "aaaaa", "aaa", "     ", "!!!!!!", "...", "\t", "\t", "\r", "\x01", "\u0378", "\uffff", "\ue000", "ß", "İ", "-", "—", "«", "x", "ab"]
+FRACS = {"0": "0/1", "1": "1/1", "0.5": "1/2", "0.25": "1/4", "0.75": "3/4"}
+
+
+def cleaning_model(ctx):
+    """bin/simple_cleaning against PV.Cleaning.filter with ICU's classification passed in and exactly representable thresholds"""
+    rng = ctx.rng
+    impl = os.path.join(ctx.bdir, "harness", "implicu")
+    names = ["Latn", "Cyrl", "Grek", "Jpan", "Hani"]
+    codes = {n: pvlib.run_lines(impl, ["icu.scriptcodes " + n], env=pvlib.san_env())[0].split()[1] for n in names}
+    for it in range(80 if ctx.tier == "quick" else 1500):
+        lines = []
+        for _ in range(rng.randrange(1, 9)):
+            b = "".join(rng.choice(TOK) for _ in range(rng.randrange(0, 14))).encode("utf-8", "surrogatepass")
+            if rng.random() < 0.12:
+                b = bytearray(b + b"z")
+                b[rng.randrange(len(b))] = rng.choice([0xFF, 0x80, 0xC3, 0xED])
+                b = bytes(b)
+            lines.append(b.replace(b"\n", b" "))
+        lines = [l[:-1] if l.endswith(b"\r") else l for l in lines]     # a final CR is the reader's, not the filter's
+        data = text(lines)
+        mc, run = rng.choice([0, 1, 5, 12, 30]), rng.choice([0, 1, 2, 3, 5])
+        mci, mp, sample = rng.choice(["1", "1", "0.5", "0.25", "0"]), rng.choice(["0", "0", "0.25", "0.5"]), rng.choice([0, 5, 200])
+        scr = rng.choice([[], [], ["Latn"], ["Cyrl"], ["Latn", "Grek"], ["Jpan"], ["Hani", "Latn"]])
+        ms = rng.choice(["0.5", "1", "0.75", "0.25"])
+        f = rng.choice([None, None, "1", "2", "1,3", "2-"])
+        args = ["--min-chars", str(mc), "--character-run", str(run), "--max-common-inherited", mci, "--min-punct", mp, "--min-punct-sample-size", str(sample),
+                "--min-scripts", ms] + (["-f", f] if f else []) + (["--scripts"] + scr if scr else [])
+        st, out, err = tool(ctx, "simple_cleaning", args, data)
+        ctx.count("simple_cleaning.model", 1, [(tuple(args), data)])
+        cps = sorted(set(ord(c) for l in lines for c in l.decode("utf-8", "ignore")))
+        table = pvlib.run_lines(impl, ["icu.classify " + (",".join(map(str, cps)) or "-")], env=pvlib.san_env())[0].split()[1]
+        sc = sorted(set(int(c) for n in scr for c in codes[n].split(",")))
+        op = (f"clean.filter {mc} {run} {FRACS[mci]} {FRACS[mp]} {sample} {','.join(map(str, sc)) or '-'} {FRACS[ms]} {hx((f or '1-').encode())} 09 {table} {hx(data)}")
+        m = pvlib.run_lines(pvlib.PVDRIVER, [op])[0]
+        if st != 0 or "ok " + hx(out) != m:
+            got = out.split(b"\n")[:-1]
+            want = unhx(m.split()[1]).split(b"\n")[:-1] if m.startswith("ok ") else None
+            diff = None
+            if want is not None:
+                diff = next((l for l in lines if (l in got) != (l in want)), None)
+            rp = {"argv": ["simple_cleaning"] + args, "stdin_hex": hx(data), "status": st, "ops": [op], "impl": hx(out), "model": m,
+                  "line_with_different_verdict": hx(diff) if diff is not None else None, "stderr": err.decode(errors="replace")[-300:]}
+            # the unconditional parts of the property decide whether this is a violation with an input
+            badl = [l for l in got if not wellformed(l) or any(c < 32 and c not in (9, 13) for c in l)] if st == 0 else []
+            if st != 0 or badl or not is_subseq(got, lines):
+                pvlib.report_violation(ctx, "cleaning-model:" + hx(data)[:60], rp,
+                                       summary=f"simple_cleaning {' '.join(args)}: " + (f"status {st}" if st != 0 else f"passed {badl[0]!r}" if badl else "output is not a subsequence of the input"))
+            else:
+                rp["correspondence"] = "PV.Cleaning.filter (ICU classification passed in) vs bin/simple_cleaning"
+                pvlib.report_violation(ctx, "corr:clean.filter", rp, no_input=True,
+                                       summary=f"simple_cleaning {' '.join(args)}: verdict on {diff!r} differs from the model")
             break
 
 
